@@ -216,3 +216,47 @@ Proof.
   - intros a Ha. destruct a; try discriminate Ha; reflexivity.
   - simpl. discriminate.
 Qed.
+
+(** * One loaded document generated again and again *)
+Lemma stable_outputs_constant : forall (doc out : Type) (gen : doc -> out * doc),
+  input_stable gen -> forall n d, outputs gen n d = repeat (out_of gen d) n.
+Proof.
+  intros doc out gen H n. induction n as [|n IH]; intros d; cbn [outputs repeat]; [reflexivity|].
+  rewrite IH, H. reflexivity.
+Qed.
+
+Lemma lgen_not_embedded_stable : input_stable (lgen false).
+Proof. intros d. reflexivity. Qed.
+
+Lemma filter_nil_ext : forall (A : Type) (p : A -> bool), filter p [] = [].
+Proof. reflexivity. Qed.
+
+Lemma internalise_no_external : forall d, ld_external d = [] -> ld_locals (internalise d) = ld_locals d.
+Proof. intros d H. unfold internalise. cbn [ld_locals]. rewrite H. cbn [filter]. apply app_nil_r. Qed.
+
+Lemma lgen_outputs_no_external : forall e n d, ld_external d = [] -> outputs (lgen e) n d = repeat (ld_locals d) n.
+Proof.
+  intros e n. induction n as [|n IH]; intros d H; cbn [outputs repeat]; [reflexivity|].
+  unfold out_of, left_of. destruct e; cbn [lgen fst snd].
+  - rewrite IH by reflexivity. rewrite internalise_no_external by exact H. reflexivity.
+  - rewrite IH by exact H. reflexivity.
+Qed.
+
+(** after the first generation nothing changes any more: the second, third, ... outputs are one and the same *)
+Lemma lgen_settles : forall e n d,
+  outputs (lgen e) n (left_of (lgen e) d) = repeat (out_of (lgen e) (left_of (lgen e) d)) n.
+Proof.
+  intros e n d. destruct e.
+  - unfold left_of at 1 2. cbn [lgen snd]. rewrite lgen_outputs_no_external by reflexivity. reflexivity.
+  - apply stable_outputs_constant. exact lgen_not_embedded_stable.
+Qed.
+
+(** with embedded-spec a document that refers to another document's component is NOT left as it was found *)
+Lemma embedded_internalises_refuted : ~ input_stable (lgen true).
+Proof.
+  intros H. specialize (H {| ld_locals := ["Pet"%string]; ld_external := ["Ext"%string] |}). vm_compute in H. discriminate H.
+Qed.
+
+Example embedded_second_generation_declares_the_external :
+  declared_of true {| ld_locals := ["Pet"%string]; ld_external := ["Ext"%string] |} ["Ext"%string] 3 = [[]; ["Ext"%string]; ["Ext"%string]].
+Proof. reflexivity. Qed.
